@@ -6,6 +6,7 @@ package world
 
 import (
 	"fmt"
+	"time"
 	"sort"
 	"strconv"
 	"strings"
@@ -15,6 +16,7 @@ import (
 	corev1 "k8s.io/api/core/v1"
 	netv1beta1 "k8s.io/api/networking/v1beta1"
 	metav1 "k8s.io/apimachinery/pkg/apis/meta/v1"
+	k8slabels "k8s.io/apimachinery/pkg/labels"
 	"k8s.io/apimachinery/pkg/runtime"
 	"k8s.io/apimachinery/pkg/types"
 )
@@ -31,6 +33,7 @@ type Spec struct {
 	Refs []string          `json:"refs,omitempty"`
 	Kind string            `json:"kind,omitempty"` // overrides the server's kind (foreign-typed objects)
 	UID  string            `json:"uid,omitempty"`  // metadata.uid: one per incarnation of a key (the server assigns it)
+	Term bool              `json:"term,omitempty"` // metadata.deletionTimestamp is set: the object is being terminated (it still exists and still changes)
 }
 
 func (s Spec) Key() string { return s.NS + "/" + s.Name }
@@ -119,6 +122,18 @@ func SameIDs(a, b []string) bool {
 }
 
 func meta(s Spec) metav1.ObjectMeta {
+	// (scenario scripts carry "being terminated" as the label terminating=true)
+	if s.Term || s.Labels["terminating"] == "true" {
+		lab := copyMap(s.Labels)
+		delete(lab, "terminating")
+		om := meta(Spec{NS: s.NS, Name: s.Name, RV: s.RV, Labels: lab, UID: s.UID})
+		om.Labels = copyMap(s.Labels)
+		ts := metav1.NewTime(time.Unix(1700000000, 0))
+		secs := int64(30)
+		om.DeletionTimestamp, om.DeletionGracePeriodSeconds = &ts, &secs
+		om.Finalizers = []string{"example.com/hold"}
+		return om
+	}
 	// generation is non-zero, as for every object of a real cluster that has a spec
 	return metav1.ObjectMeta{Namespace: s.NS, Name: s.Name, ResourceVersion: s.RV, Labels: copyMap(s.Labels), UID: types.UID(s.UID), Generation: 1}
 }
@@ -127,7 +142,81 @@ func labelSel(m map[string]string) *metav1.LabelSelector {
 	if m == nil {
 		return nil
 	}
-	return &metav1.LabelSelector{MatchLabels: copyMap(m)}
+	// the reserved key "_expr" carries match expressions: "k notin v1|v2", "k in v1|v2", "!k", "k"
+	ls := &metav1.LabelSelector{}
+	for k, v := range m {
+		if k != "_expr" {
+			if ls.MatchLabels == nil {
+				ls.MatchLabels = map[string]string{}
+			}
+			ls.MatchLabels[k] = v
+			continue
+		}
+		for _, e := range strings.Split(v, ";") {
+			f := strings.Fields(e)
+			switch {
+			case len(f) == 3 && f[1] == "notin":
+				ls.MatchExpressions = append(ls.MatchExpressions, metav1.LabelSelectorRequirement{Key: f[0], Operator: metav1.LabelSelectorOpNotIn, Values: strings.Split(f[2], "|")})
+			case len(f) == 3 && f[1] == "in":
+				ls.MatchExpressions = append(ls.MatchExpressions, metav1.LabelSelectorRequirement{Key: f[0], Operator: metav1.LabelSelectorOpIn, Values: strings.Split(f[2], "|")})
+			case len(f) == 1 && strings.HasPrefix(f[0], "!"):
+				ls.MatchExpressions = append(ls.MatchExpressions, metav1.LabelSelectorRequirement{Key: f[0][1:], Operator: metav1.LabelSelectorOpDoesNotExist})
+			case len(f) == 1:
+				ls.MatchExpressions = append(ls.MatchExpressions, metav1.LabelSelectorRequirement{Key: f[0], Operator: metav1.LabelSelectorOpExists})
+			}
+		}
+	}
+	return ls
+}
+
+// plainSel drops the match-expression carrier (kinds whose selector is a plain map).
+func plainSel(m map[string]string) map[string]string {
+	if _, ok := m["_expr"]; !ok {
+		return copyMap(m)
+	}
+	out := map[string]string{}
+	for k, v := range m {
+		if k != "_expr" {
+			out[k] = v
+		}
+	}
+	return out
+}
+
+// SelectsPod is the harness' own statement of the joins' selection rule for
+// one source object of the given kind and one pod - written with
+// apimachinery's selectors and plain map comparison, not with kcache's filter
+// package, so that a wrong filter shows as a wrong join (the rules themselves,
+// including the replication controller's missing namespace restriction and
+// "no selector = template labels", are the library's documented ones).
+func SelectsPod(kind string, src, pod Spec) bool {
+	subset := func(want map[string]string) bool {
+		for k, v := range want {
+			if pod.Labels[k] != v {
+				return false
+			}
+		}
+		return true
+	}
+	switch kind {
+	case "service":
+		sel := plainSel(src.Sel)
+		return len(sel) > 0 && src.NS == pod.NS && subset(sel)
+	case "replicationcontroller":
+		return subset(plainSel(src.Sel))
+	}
+	if src.NS != pod.NS {
+		return false
+	}
+	ls := labelSel(src.Sel)
+	if ls == nil {
+		return true // no selector: the (empty) template labels
+	}
+	sel, err := metav1.LabelSelectorAsSelector(ls)
+	if err != nil {
+		panic("world: invalid selector in scenario: " + err.Error())
+	}
+	return sel.Matches(k8slabels.Set(pod.Labels))
 }
 
 // Build creates the Kubernetes object of the given kind for a spec.
@@ -136,12 +225,12 @@ func Build(kind string, s Spec) runtime.Object {
 		kind = s.Kind
 	}
 	om := meta(s)
-	tmpl := corev1.PodTemplateSpec{ObjectMeta: metav1.ObjectMeta{Labels: copyMap(s.Sel)}}
+	tmpl := corev1.PodTemplateSpec{ObjectMeta: metav1.ObjectMeta{Labels: plainSel(s.Sel)}}
 	switch kind {
 	case "pod":
 		return &corev1.Pod{ObjectMeta: om}
 	case "service":
-		return &corev1.Service{ObjectMeta: om, Spec: corev1.ServiceSpec{Selector: copyMap(s.Sel)}}
+		return &corev1.Service{ObjectMeta: om, Spec: corev1.ServiceSpec{Selector: plainSel(s.Sel)}}
 	case "secret":
 		return &corev1.Secret{ObjectMeta: om}
 	case "node":
@@ -149,7 +238,7 @@ func Build(kind string, s Spec) runtime.Object {
 	case "event":
 		return &corev1.Event{ObjectMeta: om}
 	case "replicationcontroller":
-		return &corev1.ReplicationController{ObjectMeta: om, Spec: corev1.ReplicationControllerSpec{Selector: copyMap(s.Sel), Template: &tmpl}}
+		return &corev1.ReplicationController{ObjectMeta: om, Spec: corev1.ReplicationControllerSpec{Selector: plainSel(s.Sel), Template: &tmpl}}
 	case "replicaset":
 		return &appsv1.ReplicaSet{ObjectMeta: om, Spec: appsv1.ReplicaSetSpec{Selector: labelSel(s.Sel), Template: tmpl}}
 	case "deployment":
